@@ -187,6 +187,35 @@ func init() {
 				}
 			}
 		}
+		// ... and into tensors the caller built itself: column-major, lazily transposed
+		for k, mk := range []func() *tensor.Dense{
+			func() *tensor.Dense {
+				return tensor.New(tensor.WithShape(3, 2), tensor.AsFortran(backing(dt, []int{10, 20, 30, 40, 50, 60})))
+			},
+			func() *tensor.Dense {
+				t := tensor.New(tensor.WithShape(3, 2), tensor.WithBacking(backing(dt, []int{10, 20, 30, 40, 50, 60})))
+				t.T()
+				return t
+			},
+		} {
+			var used *tensor.Dense
+			func() {
+				defer func() { recover() }()
+				used = mk()
+			}()
+			if used == nil {
+				continue
+			}
+			if d3, st3 := decodeInto(format, src.Dtype(), b, used); st3 == "ok" {
+				// (type, shape, elements and mask; the flag token of lazily transposed sources is left to F=)
+				third := fmt.Sprintf("dt=%s %s", dtName(d3.Dtype()), serObs("D", d3))
+				if third != fmt.Sprintf("dt=%s %s", dtName(d.Dtype()), serObs("D", d)) {
+					return first + fmt.Sprintf(" !decode-into-built-tensor-%d-differs:", k) + serObs("D", d3)
+				}
+			} else {
+				return first + fmt.Sprintf(" !decode-into-built-tensor-%d:", k) + st3
+			}
+		}
 		return first
 	}
 	// serx <ptr|uptr> <fmt> <shape> : the two element types outside the token scheme (unsafe.Pointer,
